@@ -12,7 +12,11 @@ EXPLANATION = (
     "'Cannot create db_maps' panics follow a successful registry insert). (2) Re-link rule (K1): the offset a key record "
     "has after a rewrite (overwrite of its value link, unlink of its successor) must be compared with its old offset, and "
     "the 'moved' outcome must not diverge and must reach a re-linking role (bucket-head write or predecessor rewrite); "
-    "the same for the overwrite helper's moved value record (checked under C05).")
+    "the same for the overwrite helper's moved value record (checked under C05). A re-link helper satisfies its "
+    "contract (bucket head of its hash argument when the predecessor is zero, else that record read, re-linked and "
+    "rewritten; no success exit or further round without it). The map layer compares record offsets for identity only "
+    "(no ordering). (3) Refusals: io::Error values constructed (not propagated) in functions reachable from the data "
+    "path, the statistics, flush / sync and the provided trait methods are inventoried and triaged.")
 NOT_DECIDED = ("that every other entry keeps its value and the affected entry ends with exactly the new value (a state-space "
                "property); panics raised inside std or by arithmetic (unsigned subtraction is checked under C07).")
 ASSUMPTIONS = ["macro provenance of a call is taken from rustc's expansion backtrace of the call's span"]
